@@ -343,6 +343,60 @@ def sec_shared_caches(rec, patches=None):
     sec_weight_history(rec, shape=(3, 2, 4), only_impl="utils", seq_ids=[0], patches=patches)
 
 
+def replay_input_kind(cex):
+    """installed library: an integer-typed tomogram given as numpy array and as dask array gives the same sub-tomograms, average and alignment"""
+    import dask.array as da
+    from acryo import SubtomogramLoader, Molecules
+    from scipy.spatial.transform import Rotation
+
+    rng = np.random.default_rng(1)
+    bad = {}
+    for dt in (np.int16, np.uint8, np.float32):
+        tomo = (rng.normal(size=(30, 30, 30)) * 20 + 60).clip(0, 250).astype(dt)
+        mole = Molecules(rng.uniform(9, 20, size=(4, 3)), Rotation.from_rotvec(rng.normal(size=(4, 3)) * 0.5))
+        for order in (1, 3):
+            a = SubtomogramLoader(tomo, mole, order=order, output_shape=(5, 5, 5)).asnumpy()
+            b = SubtomogramLoader(da.from_array(tomo, chunks=(15, 30, 30)), mole, order=order, output_shape=(5, 5, 5)).asnumpy()
+            if a.shape != b.shape or not np.allclose(a, b, atol=1e-4):
+                bad[f"{np.dtype(dt).name},order={order}"] = float(np.abs(a.astype(float) - b.astype(float)).max())
+    return len(bad) > 0, {"numpy_vs_dask_max_abs_difference": bad}
+
+
+def sec_input_kind(rec, patches=None):
+    """a tomogram given as in-memory array and as lazy array is interpolated in the same element type (so numpy and dask input agree, also for integer tomograms)"""
+    from . import c02
+
+    L = c02._load(patches)
+    API = L["acryo.backend._api"]
+    LD = L["acryo.loader._loader"]
+    rec.encodes("acryo/loader/_loader.py:SubtomogramLoader.construct_loading_tasks (treatment of numpy vs dask input)")
+    rec.assume("image stand-ins carry an element type; .astype() is tracked")
+    xp = stubs.make_backend(API, LD.np, stubs.NdiStub())
+    pos = [real(f"p{a}") for a in range(3)]
+    hyps = [z3.And(p.e >= 100, p.e <= 200) for p in pos]
+    for dt in (np.int16, np.float32, np.uint8):
+        seen = {}
+        for kind in ("numpy", "dask"):
+            def run():
+                im = stubs.ImgStub((300, 300, 300))
+                im.dtype = np.dtype(dt)
+                im.numpy_like = kind == "numpy"
+                ld = c02._make_loader(L, xp, im, [pos], rotation.SymRotation([list(rotation.R30[9])]), 1, 1, (3, 3, 3), False)
+                out = ld.construct_loading_tasks(backend=xp)[0].compute()
+                return out
+
+            for pth in explore(run, assumptions=hyps, max_paths=20):
+                if not pth.ok:
+                    rec.fact(f"input-kind[{np.dtype(dt).name},{kind}]/runs", False, key="C10/input-kind/raises", detail={"exc": repr(pth.exc)[:200]}, reproduced=replay_input_kind({})[0])
+                    continue
+                r = pth.result
+                src = r.src if isinstance(r, stubs.Sampled) else r
+                seen.setdefault(kind, set()).add(str(getattr(src, "dtype", None)))
+        ok = seen.get("numpy") == seen.get("dask") and len(seen.get("numpy", ())) == 1
+        rec.fact(f"input-kind[{np.dtype(dt).name}]/numpy-and-dask-input-interpolated-in-the-same-element-type", bool(ok), key="C10/input-kind/dtype-depends-on-the-container",
+                 detail={k: sorted(v) for k, v in seen.items()}, reproduced=True if ok else replay_input_kind({})[0])
+
+
 def sec_binning_chunks(rec, patches=None):
     """binning a dask tomogram does not depend on how it is chunked (executed by C15's real-dask section)"""
     from .c15 import sec_blocksum_dask
@@ -352,7 +406,7 @@ def sec_binning_chunks(rec, patches=None):
 
 def sections(tier):
     S = [("multi", "checks.c10", "sec_multi", {}), ("loading", "checks.c10", "sec_loading", {}), ("shared-state-race", "checks.c10", "sec_race", {}),
-         ("binning-chunks", "checks.c10", "sec_binning_chunks", {}), ("task-purity-mock", "checks.c10", "sec_task_purity", {"n_deg": 3}), ("shared-caches", "checks.c10", "sec_shared_caches", {}),
+         ("binning-chunks", "checks.c10", "sec_binning_chunks", {}), ("task-purity-mock", "checks.c10", "sec_task_purity", {"n_deg": 3}), ("shared-caches", "checks.c10", "sec_shared_caches", {}), ("input-kind", "checks.c10", "sec_input_kind", {}),
          ("chunk-order-2x1x1", "checks.c10", "sec_chunk_order", {"chunks": ((30, 30), (60,), (60,)), "n": 3}),
          ("chunk-order-3x1x1", "checks.c10", "sec_chunk_order", {"chunks": ((20, 20, 20), (60,), (60,)), "n": 3})]
     if not quick(tier):
@@ -445,7 +499,7 @@ def run(tier, procs=None, only=None):
 
 
 # every real-library oracle of this property (each returns (reproduced, detail)); used to confirm structural facts that carry no replay of their own
-ALL_REPLAYS = [lambda c: replay_landscape('zncc', 1)(c), lambda c: replay_landscape('pcc', 2)(c), lambda c: replay_chunk_order((18, 24, 24))(c)]
+ALL_REPLAYS = [lambda c: replay_landscape('zncc', 1)(c), lambda c: replay_landscape('pcc', 2)(c), lambda c: replay_chunk_order((18, 24, 24))(c), replay_input_kind]
 
 
 def replay(data):
@@ -454,6 +508,11 @@ def replay(data):
         from .c10_tasks import replay_mock_noise
 
         ok, detail = replay_mock_noise(data.get("cex") or {})
+        print("replay:", detail)
+        print("REPRODUCED" if ok else "not reproduced")
+        return 1 if ok else 0
+    if "input-kind" in key:
+        ok, detail = replay_input_kind(data.get("cex") or {})
         print("replay:", detail)
         print("REPRODUCED" if ok else "not reproduced")
         return 1 if ok else 0
